@@ -141,7 +141,13 @@ func (sg *Getter) GetSamples(
 				}
 				return samples[i].Verify(header.DAH, request.RowIndex, request.ShareIndex)
 			}
-			return sg.executeRequest(ctx, logger, header, request.Name(), req, verify)
+			err := sg.executeRequest(ctx, logger, header, request.Name(), req, verify)
+			if err != nil {
+				// the response of the last attempt may have been decoded into samples[i] without
+				// passing verification: never hand it back together with the error
+				samples[i] = shwap.Sample{}
+			}
+			return err
 		})
 	}
 
